@@ -161,6 +161,11 @@ def run_one(ctx, rng, cands, d, status):
             json.dump(dict({'report': report, 'stderr_chunks': [[c.hex(), dl] for c, dl in chunks], 'stdout_text': MARKER, 'exit': status}, **extra_plan), open(planf, 'w'))
             outf = os.path.join(d, 'stdout.txt')
             e3 = dict(e2, VERIF_CHILD_PLAN=planf)
+            if rng.random() < 0.35:
+                # wayland-debug's own environment already has the variable (the user debugs a compositor, or switched it off)
+                e3['WAYLAND_DEBUG'] = rng.choice(['server', '0', '', 'client', '1'])
+                sname += '+outer-WAYLAND_DEBUG=%s' % e3['WAYLAND_DEBUG']
+                ctx.count('runs_with_outer_wayland_debug')
             with open(outf, 'wb') as of:
                 r = subprocess.run(main + pre_opts + [rng.choice(['-r', '--run']), '/venv/bin/python', os.path.join(HELPERS, 'child.py')] + words,
                                    input=b'quit\n', stdout=of, stderr=subprocess.PIPE, timeout=300, env=e3)
